@@ -36,7 +36,8 @@ func goEnv() []string {
 	env := os.Environ()
 	env = append(env,
 		"PATH=/opt/veriftools/go1.26.8/bin:"+os.Getenv("PATH"),
-		"GOTOOLCHAIN=local", "GOFLAGS=-mod=mod", "GOPROXY=off", "GOSUMDB=off", "GOWORK=off")
+		"GOTOOLCHAIN=local", "GOFLAGS=-mod=mod", "GOPROXY=off", "GOSUMDB=off", "GOWORK=off",
+		"CGO_ENABLED=0") // the repo's cgo packages (libbpf) have !cgo stubs; the C headers are not installed here
 	return env
 }
 
